@@ -727,7 +727,7 @@ theorem derivs_shapeless_partial (mask : Bool) (dmasks : List Bool) (indx : List
     (∃ r0 tl, rs = r0 :: tl ∧ getitemScalar mask indx = some r0 ∧ tl.length = dmasks.length) ∧
     ((mask = false ∨ scalarMasked indx = false) →
       rs.tail.map (fun r => (r.shape, r.mask.bit [])) =
-        dmasks.map (fun d => (scalarDims indx, d || scalarMasked indx)) ∨ (0 ∈ scalarDims indx)) := by
+        dmasks.map (fun d => (scalarDims indx, d || scalarMasked indx))) := by
   have hinv : ({} : SState).Inv := ⟨fun _ => rfl, fun h => by simp at h, fun _ => rfl⟩
   obtain ⟨_, h2⟩ := scalarLoop_spec indx {} hinv
   unfold getitemScalarObj at h
@@ -745,16 +745,14 @@ theorem derivs_shapeless_partial (mask : Bool) (dmasks : List Bool) (indx : List
     cases hz : s.sizeZero with
     | true =>
       -- a `False` in the index: the result has an axis of length 0
-      left
       rw [List.map_inj_left]
       intro dd _
       have : s.masked = false := by
         cases hmm : s.masked with
         | false => rfl
         | true => have := i2 hmm; simp [hz] at this
-      simp [Function.comp, Mask.bit, this ▸ hd ▸ rfl, ← hd, this]
+      simp [Function.comp, Mask.bit, ← hd, this]
     | false =>
-      left
       rw [List.map_inj_left]
       intro dd _
       rcases hm with hm | hm
